@@ -61,7 +61,9 @@ RULE = ("generated importable module: interface DAG of 1..5 interfaces (<= 2 bas
         "directlyProvidedBy(cls), ..), noLongerProvides(cls)) and 0..6 instance operations (directlyProvides, "
         "alsoProvides, noLongerProvides, gc.collect) either module-ordered or interleaved; in a third of the cases "
         "one class is a built-in type (complex, frozenset, bytearray, slice, range, memoryview; its declarations are "
-        "dropped from BuiltinImplementationSpecifications before and after the case); a quarter of the argument "
+        "dropped from BuiltinImplementationSpecifications before and after the case); instance declarations "
+        "often name an interface the class already implies (40%) or nothing at all (directlyProvides(ob), "
+        "noLongerProvides down to empty); a quarter of the argument "
         "lists pass a slice wrapped in a Declaration(...); every interface, class, class "
         "specification, class provides, instance provides and instance round-tripped with protocols 0..5 in the "
         "same process and into a fresh process; a case is non-trivial when some class specification or "
@@ -172,6 +174,21 @@ def _gen_case(rng, force=None):
     if force == "only":
         c = nc - 1
         cops.insert(rng.randint(0, len(cops)), ["only", c, _ifs(rng, ni, 0), rng.random() < 0.5])
+    # interfaces a class (or an ancestor) is declared to implement, with their bases: naming one of
+    # them in an instance declaration is redundant at declaration time (stripped from the bases,
+    # kept in the constructor arguments)
+    def implied_by(c, seen=()):
+        out = set()
+        for o in cops:
+            if o[0] in ("impl", "only") and o[1] == c:
+                out.update(o[2])
+            elif o[0] == "first" and o[1] == c:
+                out.add(o[2])
+        for b in classes[c]:
+            out |= implied_by(b)
+        for i in list(out):
+            out.update(ifaces[i])
+        return out
     iops = []
     if insts:
         for _ in range(rng.randint(0, 6)):
@@ -181,8 +198,14 @@ def _gen_case(rng, force=None):
             elif kind == "nl":
                 iops.append(["nl", rng.randrange(len(insts)), rng.randrange(ni)])
             else:
+                o = rng.randrange(len(insts))
                 xs = _ifs(rng, ni, 0 if kind == "dp" else 1)
-                iops.append([kind, rng.randrange(len(insts)), xs, rng.random() < 0.3] + _wrap(rng, xs))
+                red = sorted(implied_by(insts[o][0]))
+                if red and rng.random() < 0.4:
+                    xs.insert(rng.randint(0, len(xs)), rng.choice(red))
+                if kind == "dp" and rng.random() < 0.15:
+                    xs = []
+                iops.append([kind, o, xs, rng.random() < 0.3] + _wrap(rng, xs))
     if rng.random() < 0.6:
         ops = cops + iops
     else:
@@ -227,6 +250,17 @@ def generate(run, tier):
                                           ["ap", 0, [3], False, [0, 1]]]
         ops += [["iby", c] for c in range(4)]
         cases.append(dict(bbase, ops=ops))
+    # instance declarations naming interfaces the class already implies; empty instance declarations
+    # (directlyProvides(ob), and alsoProvides followed by noLongerProvides of everything)
+    rbase = {"ifaces": [[], [0], [], [1]], "classes": [[], [0]], "insts": [[1, [5]], [0, []], [1, []]], "builtin": {}}
+    for shape in (
+        [["impl", 0, [3], True], ["dp", 0, [0, 2]], ["dp", 1, [1]], ["dp", 2, [3, 0]]],
+        [["impl", 1, [1], False], ["dp", 0, []], ["dp", 1, []], ["ap", 2, [2]], ["nl", 2, 2]],
+        [["only", 1, [2], True], ["ap", 0, [1, 2]], ["nl", 0, 0], ["gc"], ["dp", 2, [2]], ["nl", 2, 2], ["dp", 1, [], True]],
+        [["impl", 0, [1], False], ["dp", 0, [0]], ["ap", 0, [1]], ["ap", 2, [0, 2], True], ["nl", 2, 2], ["nl", 2, 0]],
+    ):
+        ops = [list(o) for o in shape] + [["iby", 0], ["iby", 1]]
+        cases.append(dict(rbase, ops=ops))
     for k in range(n):
         cases.append(_gen_case(rng, force="only" if k % 4 == 0 else None))
     return cases
@@ -382,6 +416,10 @@ def kind(case, obs):
 
 
 def _first_bad(obs):
+    return _first_bad_(obs, False) or _first_bad_(obs, True)
+
+
+def _first_bad_(obs, identity_of_instance_declarations):
     for rec in obs.get("items", []):
         for variant in ("live", "xproc"):
             for ob in rec.get(variant, []):
@@ -389,7 +427,9 @@ def _first_bad(obs):
                 lists_bad = rec["kind"] != "class" and (ob["after"] != rec["before"] or ob["fafter"] != rec["fbefore"])
                 if (not ob["ok"]) or (named and not ob["same"]) or ob["badops"] or not ob["struct"] or \
                         (lists_bad and rec["kind"] in ("impl", "cprov")) or \
-                        (lists_bad and variant == "live"):
+                        (lists_bad and variant == "live") or \
+                        (identity_of_instance_declarations and variant == "live" and rec["kind"] in ("prov", "inst")
+                         and not ob["same"] and not lists_bad):   # a shared declaration came back as a new object
                     return rec, variant, ob
     return None
 
